@@ -125,6 +125,140 @@ def pairs_on_real_isotherms(seed, thorough=False):
         yield {'name': f"{b}|after:{a}", 'ok': ok, 'detail': detail}
 
 
+def _process_state():
+    """interpreter-wide settings a library call has no business changing"""
+    import decimal
+    import locale
+    import logging
+    import sys
+    import warnings
+    import pandas
+    return {
+        'warnings.filters': tuple((f[0], str(f[1]), getattr(f[2], '__name__', str(f[2])), str(f[3]), f[4]) for f in warnings.filters),
+        'numpy.geterr': tuple(sorted(numpy.geterr().items())),
+        'numpy.printoptions': tuple(sorted((k, str(v)) for k, v in numpy.get_printoptions().items())),
+        'pandas.options': tuple((k, str(pandas.get_option(k))) for k in ('display.precision', 'mode.chained_assignment', 'mode.copy_on_write', 'future.infer_string')
+                                if k in pandas.describe_option(k, _print_desc=False) or True),
+        'decimal.prec': decimal.getcontext().prec,
+        'locale': locale.setlocale(locale.LC_ALL),
+        'cwd': os.getcwd(),
+        'environ': tuple(sorted(os.environ.items())),
+        'recursionlimit': sys.getrecursionlimit(),
+        'logging': (logging.getLogger().level, logging.getLogger('pygaps').level, logging.getLogger('pygaps').disabled),
+        'sys.path': tuple(sys.path),
+    }
+
+
+MUST_RETURN = ('whittaker(Toth)', 'isosteric_enthalpy', 'alpha_s', 'area_langmuir', 'da_plot', 'psd_microporous', 'iast_point', 'model_iso(guess list)', 'to_aif',
+               'area_BET', 't_plot', 'psd_meso', 'psd_dft', 'dr_plot', 'to_json', 'to_csv')
+
+
+def _process_state_worker():
+    """every quantified kind of call (data access, interpolation, spreading pressure, export, characterisation, model fitting, IAST,
+    enthalpy methods) leaves the interpreter-wide settings as they were -- warnings filters, numpy error state and print options,
+    pandas options, locale, working directory, environment, logging levels: a later call must not behave differently because an
+    earlier one changed them.  Each call is made once beforehand, so that first-import side effects of numpy / scipy are not counted."""
+    import glob
+    import pygaps
+    import pygaps.characterisation as pgc
+    import pygaps.iast as pgi
+    import pygaps.modelling as pgm
+    import pygaps.parsing as pgp
+    pygaps.logger.disabled = True
+    iso = _load()
+    Q = dict(catalogue())
+    meta = dict(material='pgv_c04', temperature=77.355, pressure_mode='absolute', pressure_unit='bar', loading_basis='molar', loading_unit='mmol',
+                material_basis='mass', material_unit='g', temperature_unit='K')
+
+    def mk(name, params, ads):
+        m = pgm.get_isotherm_model(name, parameters=params, pressure_range=(0.0, 1.0), loading_range=(0.0, 5.0), rmse=0.0)
+        return pygaps.ModelIsotherm(model=m, adsorbate=ads, **meta)
+    lang = [mk('Langmuir', {'K': 3.0, 'n_m': 5.0}, 'nitrogen'), mk('Langmuir', {'K': 0.7, 'n_m': 4.0}, 'methane')]
+    tm = pgm.get_isotherm_model('Toth', parameters={'K': 3e-5, 'n_m': 5.0, 't': 0.8}, pressure_range=(0.0, 1e5), loading_range=(0.0, 5.0), rmse=0.0)
+    toth = pygaps.ModelIsotherm(model=tm, adsorbate='nitrogen', **dict(meta, pressure_unit='Pa'))
+    iso_set = [pgp.isotherm_from_json(f) for f in sorted(glob.glob(os.path.join(os.path.dirname(DATA), 'isosteric', '*.json')))]
+    Q.update({
+        'whittaker(Toth)': lambda i: pgc.enthalpy_sorption_whittaker(toth, loading=[1.0, 2.0, 1e9])['enthalpy_sorption'],
+        'isosteric_enthalpy': lambda i: pgc.isosteric_enthalpy(iso_set)['isosteric_enthalpy'],
+        'alpha_s': lambda i: pgc.alpha_s(i, _twin(iso), reference_area='BET')['results'],
+        'area_langmuir': lambda i: pgc.area_langmuir(i)['area'],
+        'da_plot': lambda i: pgc.da_plot(i)['pore_volume'],
+        'psd_microporous': lambda i: pgc.psd_microporous(i, psd_model='HK')['pore_widths'],
+        'iast_point': lambda i: pgi.iast_point(lang, [0.1, 0.2], warningoff=True),
+        'model_iso(guess list)': lambda i: pgm.model_iso(i, model=['Henry', 'Langmuir'], verbose=False).model.name,
+        'to_aif': lambda i: i.to_aif(),
+    })
+    # who changes the warnings filters / numpy error state: calls made by numpy / scipy / pandas while they are first imported are
+    # theirs, calls made from pyGAPS code are the library's
+    import sys
+    import warnings
+    log = []
+
+    def tap(mod, fname):
+        real = getattr(mod, fname)
+
+        def wrapper(*a, **k):
+            log.append((f"{mod.__name__}.{fname}", sys._getframe(1).f_globals.get('__name__', '?')))
+            return real(*a, **k)
+        setattr(mod, fname, wrapper)
+        return real
+    reals = [(m_, n_, tap(m_, n_)) for m_, n_ in ((warnings, 'simplefilter'), (warnings, 'filterwarnings'), (warnings, 'resetwarnings'), (numpy, 'seterr'),
+                                                   (numpy, 'set_printoptions'))]
+    try:
+        for name, f in Q.items():
+            del log[:]
+            before = _process_state()
+            out = _run(f, _twin(iso))
+            after = _process_state()
+            diff = [k for k in before if before[k] != after[k]]
+            own = [c for c in log if c[1].split('.')[0] == 'pygaps']
+            # (a change of the filters / numpy settings counts when pyGAPS code made the call that is still in effect afterwards)
+            diff = [k for k in diff if k not in ('warnings.filters', 'numpy.geterr', 'numpy.printoptions') or own]
+            detail = ''
+            if out[0] == 'raise' and name in MUST_RETURN:
+                yield {'name': f"process_state_unchanged|{name}", 'ok': False, 'detail': f"the call did not return ({out[1]}): nothing was exercised"}
+                continue
+            if diff:
+                k = diff[0]
+                b, a = before[k], after[k]
+                if isinstance(b, tuple):
+                    detail = f"{k}: added {[x for x in a if x not in b][:2]}, removed {[x for x in b if x not in a][:2]}; set by {own[:2]}"
+                else:
+                    detail = f"{k}: {b} -> {a}"
+            yield {'name': f"process_state_unchanged|{name}", 'ok': not diff, 'detail': detail}
+            if diff:
+                # put the settings the case disturbed back, so that the following cases are judged on their own
+                reals[2][2]()
+                reals[3][2](**dict(before['numpy.geterr']))
+    finally:
+        for m_, n_, r_ in reals:
+            setattr(m_, n_, r_)
+
+
+def process_state_cases():
+    """the cases of `_process_state_worker`, run in an interpreter of their own (nothing of this checker loaded into pyGAPS)"""
+    import json
+    import subprocess
+    import sys
+    root = os.path.dirname(os.path.dirname(os.path.dirname(os.path.abspath(__file__))))
+    env = dict(os.environ, PYTHONPATH=f"{REPO}/src:{root}", PGV_REPO=REPO)
+    code = "import json, warnings\nfrom pgv.replayers import c04\nprint('PGV-JSON' + json.dumps(list(c04._process_state_worker())))"
+    p = subprocess.run([sys.executable, '-c', code], capture_output=True, text=True, env=env, timeout=1200)
+    line = [ln for ln in p.stdout.splitlines() if ln.startswith('PGV-JSON')]
+    if not line:
+        yield {'name': 'process_state_unchanged|harness', 'ok': False, 'detail': (p.stderr or p.stdout)[-300:]}
+        return
+    yield from json.loads(line[-1][8:])
+
+
+@replayer('c04.process_state')
+def _pstate(spec, model):
+    for r in process_state_cases():
+        if r['name'] == spec['name']:
+            return {'confirmed': not r['ok'], 'observed': r['detail'], 'expected': 'interpreter-wide settings unchanged by the call'}
+    return {'confirmed': False, 'error': 'case not found'}
+
+
 def model_pairs():
     """ordered pairs of read-only queries on a *model* isotherm (parameters with many significant digits, pressures in Pa)"""
     import pygaps
